@@ -102,6 +102,11 @@ STRENGTHENED = [
     ("seeded/C07-i", "item picked out of a typed sequence by a non-literal index keeps the sequence type", "C07: receivers picked by a literal / negative / computed index"),
     ("seeded/C08-i", "field of a dictionary literal looked up by position among the constant keys only", "C08: dictionary literals with a ** / computed entry in front of the field that is read by attribute; repeated keys"),
     ("seeded/C09-i", "callbacks skipped for a call that is not fully resolved (lambda argument of a non-collection method)", "C09: method Jet.calib(tag, f: Callable) called with a lambda"),
+    ("seeded/C12-i", "the copy-on-write walker drops the entries of a node list that are not nodes (the None key of a ** spread)", "C12 lambda pool: dictionary displays with a ** spread in front of / between named entries, a called lambda with a None keyword-only default; C15 grammar: the same (C15 catches the change too)"),
+    ("seeded/C13-i", "str subclasses 'normalised' with str() (a (str, Enum) member emitted as its text form)", "C13: in a sixth of the in-lambda cases the value is an instance of a subclass of str (with a text form of its own: must be refused) or of float (embedded as the plain number)"),
+    ("seeded/C16-i", "QMetaData keeps a reference to the caller's dict", "C16: in half of the histories ONE dict object is re-used for all QMetaData calls and changed after each call"),
+    ("seeded/C17-i", "a 'scope-aware' rewrite leaves seq.Op(...) alone when a lambda parameter is called Op", "C17: lambda parameters spelled like operators (Count, Where, Sum, First); for those cases only the structural checks run (a back end reads Op(...) by name, python's scoping does not)"),
+    ("seeded/C19-i", "attribute access treated as a leaf: a shortcut below the attribute that is the sequence argument is not lowered", "C19: sequences of the form hold(<int expr>, <seq expr>).seq"),
     ("seeded/C08-c", "generic subclass with more type parameters than its base uses", "C08 skeleton: Tag(Box[K], Generic[K,V]), Tag2(Box[V], ...), Swap(Pair[U,T], ...), HalfPair(Pair[T,int]), It2(Iterable[V], ...), TagInts(Tag[int,V]); class names taken from typing. This extension also exposed the genuine defects D29 and D30"),
 ]
 
